@@ -66,11 +66,19 @@ func (p c14) run(c *core.Ctx) {
 		nc = c.Index % 5
 	}
 	var closers []int
+	appDependent := 0
 	for i := 0; i < nc; i++ {
 		k := g.AddRandomNode(world.TypesCloser, 0.1)
 		closers = append(closers, k)
 		if nOther > 0 && c.Rng.Intn(3) == 0 {
 			g.EdgeByName(k, c.Rng.Intn(nOther), "")
+		}
+		// a closer that needs the application itself (as its configuration source, say): depending on
+		// how its name sorts it is created before the application - which then collects its closers
+		// while this one is still being created - or after it
+		if c.Rng.Intn(4) == 0 {
+			g.SetTag(k, "Any1", "wire", "github.com/go-kid/ioc/app/App")
+			appDependent++
 		}
 	}
 	gate := &closeGate{all: make(chan struct{}), rel: map[string]chan struct{}{}, instant: map[string]bool{}}
@@ -105,6 +113,16 @@ func (p c14) run(c *core.Ctx) {
 		names := []string{"zero-closer-a", "zero-closer-b", "zero-closer-c"}
 		k := 2 + c.Rng.Intn(2)
 		zero, zeroNames = all[:k], names[:k]
+	}
+	// closers that are (lazy) post-processors at the same time
+	if c.Rng.Intn(3) == 0 {
+		zero = append(zero, &world.ClosingPP{Nm: "closing-pp"})
+		zeroNames = append(zeroNames, "closing-pp")
+		if c.Rng.Intn(2) == 0 {
+			zero = append(zero, world.NewClosingTagPP("closing-tag-pp"))
+			zeroNames = append(zeroNames, "closing-tag-pp")
+		}
+		c.Count("closers_that_are_post_processors", 1)
 	}
 	// a few cases hold the gates for seconds: Close must keep waiting however long a closer takes
 	hold := time.Duration(0)
@@ -223,7 +241,7 @@ func (p c14) run(c *core.Ctx) {
 	if hold > 0 {
 		c.Count("cases_with_closers_held_for_seconds", 1)
 	}
-	c.Count("zero_size_closers", len(zeroNames))
+	c.Count("stateless_or_post_processor_closers", len(zeroNames))
 	for _, name := range allNames {
 		b, e := count(evs, "close-begin", name), count(evs, "close-end", name)
 		if b != 1 || e != 1 {
@@ -239,6 +257,7 @@ func (p c14) run(c *core.Ctx) {
 		return
 	}
 	c.Count("closers_checked", nc)
+	c.Count("closers_depending_on_the_application", appDependent)
 	c.Count("failing_closers", failing)
 	c.Distinct("finishing_orders", fmt.Sprint(finish))
 	if gate.expected >= 2 && (failing > 0 || instant > 0) {
